@@ -21,7 +21,7 @@ namespace sv {
 
 typedef std::vector<uint16_t> Hist;   // codes: 0..n_ops-1 = alphabet; a history may start with one root code 60000+r
 
-static const uint16_t ROOT0 = 60000;
+static const uint16_t ROOT0 = 20000;
 static const rtosc_version APPVER = {1, 2, 3};
 inline std::string appname(const char *app) { return std::string("vp_") + app; }
 
@@ -32,7 +32,7 @@ inline H128 h128(const std::string &s) { return H128{vp::fnv(s), vp::fnv(s, 0x84
 // deliver one parameter message the way savefile_dispatcher_t::do_dispatch does; returns the number of matches
 template <class App> int send(App &inst, const sapp::Op &op)
 {
-    char msg[256];
+    char msg[512];
     char types[2] = {op.type, 0};
     rtosc_arg_t a; memset(&a, 0, sizeof a);
     switch(op.type) {
